@@ -421,7 +421,10 @@ def _check_type_requirements_for_field(
                 ]
             )
             return
-        elif element_size % type_definition.addressable_unit != 0:
+        elif (
+            field_min_size != field_max_size
+            and element_size % type_definition.addressable_unit != 0
+        ):
             # The field's size is not known until run time, but it is a whole
             # number of bytes: `1 [+n]  UInt:3  x` can never fit exactly.
             errors.append(
